@@ -104,7 +104,8 @@ CHECKS = {
                 "kernels equal sum_j s_j M[i,j] as canonical forms over full ranges, slices of s advance by params of every object in list order, each object's model data is built from its own matrix / mappings and its own slice, the total "
                 "is their sum; (state) fnnls_cholesky explored exhaustively as a finite typestate system (gradient w fresh w.r.t. d, d = copy of the least-squares solution on a passive set where it is positive and zero elsewhere, Cholesky "
                 "factor rebuilt or updated for every change of the ordered passive list, P and the list in step) at every evaluation of the loop condition and at return, plus the contract of fix_constraint_cholesky; (chol) update / downdate "
-                "kernels equal the Givens recurrences as canonical forms, insertion and deletion follow the block algebra of an upper-triangular factor. With these invariants, leaving the loop through its condition is the KKT certificate. "
+                "kernels (found by their call sites, a merged kernel with a sign argument included) equal the Givens recurrences as canonical forms, insertion and deletion follow the block algebra of an upper-triangular factor; (settings) "
+                "use_positive_only_solver / positive_only_uses_p_initial report an explicit True / False unchanged and fall back to the config only on None. With these invariants, leaving the loop through its condition is the KKT certificate. "
                 "Not decided: termination, the max_repetitions stall exit, conditioning and floating-point error of scipy's solve / cholesky / cho_solve - i.e. optimality 'to numerical precision' itself.",
         "note": "Trusted: Python ast, E1 resolver, KEval; the Lawson-Hanson argument from invariants to KKT is mathematics, not checked by machine. A genuine defect (invalid warm start, non-optimal results for ~5-25% of systems with negative "
                 "unconstrained entries) was found while building the state rule and repaired (fix a8b36c1); the rule reports the pre-fix code.",
@@ -113,7 +114,7 @@ CHECKS = {
     "C08": {
         "text": "Decides, for every dataset / mask / model: each of the 21 fit_util functions equals its definition as a canonical form (data - model, (r/n)^2, sum log(2 pi n^2), -(chi2+norm)/2, residual/data, "
                 "evidence polarities -1/2(chi2 + sHs + logdet(F+H) - logdet(H) + norm)); every _with_mask_ variant restricts EVERY array operand by mask == 0 (where= + zero out=, or boolean selection) so masked values cannot reach a sum; "
-                "each property of AbstractFit / FitDataset / FitInterferometer is wired to the util of the same name with same-named arguments, masked variant exactly under use_mask_in_fit with mask=self.mask, both modes present; "
+                "each property of AbstractFit / FitDataset / FitInterferometer is wired to the util of the same name with same-named arguments, masked variant exactly under use_mask_in_fit with mask=self.mask, both modes present, and no subclass overrides a judged statistic except through that util or super(); "
                 "figure of merit = evidence iff `inversion is not None`; the regularization term and both log-determinants are formed from the *_reduced quantities, which drop exactly the no-regularization rows and columns; "
                 "signal_to_noise_map clips negatives on a fresh array only. Not decided: floating-point accuracy of determinants and sums.",
         "note": "Trusted: Python ast, E1 resolver, numpy ufunc where=/out= and boolean-mask selection semantics.",
